@@ -555,7 +555,7 @@ def check_aggregate(pname, gname, grouping, agg, wrap, having):
     if len(rest) != len(want):
         return ("aggregate|%s|number-of-groups-differs" % cls, {"query": q, "got": list(map(repr, got)), "expected": list(map(repr, want))})
     # expectations that pin a value are matched before those that accept any value (the matching is greedy)
-    want.sort(key=lambda ka: 1 if (ka[1] == "ANY" or (isinstance(ka[1], tuple) and ka[1] and ka[1][0] in ("ONEOF", "TOKENS"))) else 0)
+    want.sort(key=lambda ka: 2 if ka[1] == "ANY" else 1 if (isinstance(ka[1], tuple) and ka[1] and ka[1][0] in ("ONEOF", "TOKENS")) else 0)
     for k, a in want:
         for i, r in enumerate(rest):
             if row_equal(tuple(r[:len(gvars)]), k) and agg_matches(a, r[len(gvars)]):
